@@ -59,7 +59,7 @@ def skipLoop (offset : Int) : List String → Int → Option (List String)
     else skipLoop offset rest (pos + 1)
 
 /-- second loop of `SubstrFunc`: keep clusters until `pos == length`, tested after
-the increment — so `length = 0` is never met and the loop runs to the end -/
+the increment (`length = 0` returns early before the loops) -/
 def takeLoop (length : Int) : List String → Int → List String
   | [], _ => []
   | c :: rest, pos => if pos + 1 == length then [c] else c :: takeLoop length rest (pos + 1)
@@ -67,7 +67,7 @@ def takeLoop (length : Int) : List String → Int → List String
 /-- `SubstrFunc` on the cluster list of its first argument -/
 def substrClusters (cs : List String) (offset length : Int) : List String :=
   let offset' := if offset < 0 then offset + (strlenClusters cs : Int) else offset
-  if offset ≥ 0 ∧ length = 0 then []
+  if length = 0 then []
   else
     match (if offset' > 0 then skipLoop offset' cs 0 else some cs) with
     | none => []
